@@ -16,7 +16,8 @@ LEVEL_TEXT = ("A state is a script; a transition appends one statement. Every sc
               "length 3 over the 20 supported ones, plus corpus scripts paired with generated statements (thorough: all ordered corpus x "
               "corpus pairs and 2 unsupported insertions), is run on the real library; the result must be the in-order concatenation of the "
               "stand-alone results. The carriers perturbed by the alphabet are read back from the real lexer and a carrier nobody perturbs "
-              "is a harness error.")
+              "is a harness error."
+              " The alphabet also holds a Hive table with key=value properties next to the \"input.regex\" statement, statements with a backslash-escaped quote, and a same-named table in another schema (ALTER/INDEX statements that name the bare table must stay with it).")
 LEVEL_NOTE = ("The library has no incremental API, so every history is executed from scratch (no pruning by state). Depth bound 3 rests "
               "on carriers being reset per statement (a leak reaches at most the next statement).")
 RULE = ("case = sequence of statements from the alphabet (or a pair of corpus scripts); expected = concatenation of stand-alone results "
